@@ -292,6 +292,8 @@ class Interp:
         return r
 
     def lookup(self, name, env, node):
+        if name in env.vars.get("__globals__", ()):
+            return self.module_global(self.call_stack[-1].module, name)
         try:
             return env.lookup(name)
         except KeyError:
@@ -454,6 +456,14 @@ class Interp:
 
     def assign(self, t, v, env):
         if isinstance(t, ast.Name):
+            if t.id in env.vars.get("__globals__", ()):
+                mod = self.call_stack[-1].module
+                self._modglobals[(mod.name, t.id)] = v
+                self.__dict__.setdefault("global_stores", []).append((mod.name, t.id, self.where(t)))
+                hook = getattr(self.domain, "note_global_store", None)
+                if hook is not None:
+                    hook(self, mod, t.id, v, t)
+                return
             env.vars[t.id] = v
         elif isinstance(t, (ast.Tuple, ast.List)):
             try:
@@ -616,7 +626,8 @@ class Interp:
                 env.vars[local] = self.domain.getattr(self, m, al.name)
 
     def x_Global(self, s, env):
-        self.unsupported(s, "global")
+        # names declared global: stores go to the module namespace (kept per interpreter: state that survives the call)
+        env.vars.setdefault("__globals__", set()).update(s.names)
 
     def x_Nonlocal(self, s, env):
         self.unsupported(s, "nonlocal")
